@@ -1684,13 +1684,22 @@ class _FuncAnalysis:
                 keep.add(f)
         # sums of two one-sided facts (invariants such as p + n == p0 + n0 when both move in step)
         rest = [f for f in (fa | fb) - keep]
-        if len(rest) <= 14:
+        if len(rest) <= 60:
+            allf = list(fa | fb)
+            tried = set()
             for i, f in enumerate(rest):
-                for g in rest[i + 1:]:
-                    if set(f.t) == set(g.t):
+                # the partner may be a fact that survived the join on its own (it holds on both sides with slack on one)
+                for g in (rest[i + 1:] if len(rest) <= 14 else []) + [g for g in allf if g not in rest or len(rest) > 14]:
+                    if g is f or set(f.t) == set(g.t):
                         continue
                     h = f + g
-                    if h.t and len(h.t) <= 4 and h not in keep and self.entails(a, h) and self.entails(b, h):
+                    # beyond small joins only sums in which something cancels (two quantities moving in step)
+                    if (len(rest) > 14 or g not in rest) and len(h.t) >= max(len(f.t), len(g.t)):
+                        continue
+                    if not h.t or len(h.t) > 4 or h in keep or h in tried:
+                        continue
+                    tried.add(h)
+                    if self.entails(a, h) and self.entails(b, h):
                         keep.add(h)
         # off-by-small-constant relaxations of facts that hold on one side only
         for f in (fa | fb) - keep:
